@@ -26,6 +26,7 @@ UNK = "unknown"
 # host-raiser table: callee -> (what it needs, exception classes, validated on CPython 3.12 with the reproducer)
 RAISERS: Dict[str, Tuple[str, Tuple[str, ...], str]] = {
     "int": ("finite number", ("ValueError", "OverflowError"), "int(float('nan')) -> ValueError; int(float('inf')) -> OverflowError"),
+    "float": ("numeric text", ("ValueError",), "float('1_') -> ValueError (judged for text operands only: a number converts to itself)"),
     "round": ("finite number", ("ValueError", "OverflowError"), "round(float('nan')) -> ValueError"),
     "math.floor": ("finite number", ("ValueError", "OverflowError"), "math.floor(float('nan')) -> ValueError"),
     "math.ceil": ("finite number", ("ValueError", "OverflowError"), "math.ceil(float('inf')) -> OverflowError"),
@@ -321,6 +322,12 @@ def _cond_excludes(tst: ast.AST, pol: bool, names: Set[str], argtxt: str) -> Set
         if isinstance(a, ast.Compare) and len(a.ops) == 1:
             op = a.ops[0]
             l, r = a.left, a.comparators[0]
+            cv = _const_number(r)
+            if cv is not None and not isinstance(r, ast.Constant):
+                r = ast.copy_location(ast.Constant(cv), r)  # 2**53, 2**32 - 1: constant arithmetic
+            # |v| <= K true: v is finite (NaN fails every comparison)
+            if cv is not None and p and isinstance(op, (ast.Lt, ast.LtE)) and isinstance(l, ast.Call) and norm(l.func) == "abs":
+                out |= {"nan", "inf"}
             # v < 0 false / v >= 0 true ...
             if isinstance(r, ast.Constant) and isinstance(r.value, (int, float)):
                 # any successful ordered comparison with a number excludes NaN when it is *true*
@@ -362,6 +369,23 @@ def _cond_excludes(tst: ast.AST, pol: bool, names: Set[str], argtxt: str) -> Set
             if all(isinstance(o, (ast.Lt, ast.LtE)) for o in a.ops) and isinstance(a.left, ast.Constant):
                 out |= {"nan", "inf", "neg"}
     return out
+
+
+def _const_number(e: ast.AST):
+    """The value of an arithmetic expression over number literals (2**53, 2**32 - 1, -(2**31)), or None."""
+    if isinstance(e, ast.Constant) and isinstance(e.value, (int, float)) and not isinstance(e.value, bool):
+        return e.value
+    if isinstance(e, ast.UnaryOp) and isinstance(e.op, ast.USub):
+        v = _const_number(e.operand)
+        return None if v is None else -v
+    if isinstance(e, ast.BinOp) and isinstance(e.op, (ast.Add, ast.Sub, ast.Mult, ast.Pow)):
+        a, b = _const_number(e.left), _const_number(e.right)
+        if a is None or b is None:
+            return None
+        if isinstance(e.op, ast.Pow):
+            return a**b if isinstance(b, int) and 0 <= b <= 1100 and abs(a) <= 16 else None
+        return a + b if isinstance(e.op, ast.Add) else a - b if isinstance(e.op, ast.Sub) else a * b
+    return None
 
 
 def _try_covers(site: ast.AST, f: Func, classes: Tuple[str, ...], t) -> Set[str]:
@@ -407,6 +431,12 @@ def rule_implicit_raisers(ctx, rep, rid: str, only: Optional[Callable[[str], boo
                     # int(s, base) parses text: a different contract, guarded separately
                     if fn == "int" and len(n.args) == 2:
                         continue
+                    if fn == "float" and isinstance(n.args[0], ast.Constant):
+                        try:
+                            float(n.args[0].value)
+                            continue  # float("nan"), float("-inf"), float(0): a literal the host accepts
+                        except (ValueError, TypeError):
+                            pass
                     spec = RAISERS[fn]
                     arg = n.args[-1] if fn == "struct.pack" else n.args[0]
                     label = fn
@@ -551,6 +581,8 @@ def _judge(label: str, n: ast.AST, arg: ast.AST, f: Func, env: KindEnv, t, class
         if _grammar_checked(n, arg, f):
             return None
         return "the operand is script text that need not be numeric"
+    if label == "float":
+        return None  # a number (or a literal spelling such as "nan") converts without an exception
     if k == FINITE and label in ("int", "round", "math.floor", "math.ceil", "math.trunc", "math.sin", "math.cos", "math.tan"):
         return None
     if k == UNK:
